@@ -30,14 +30,14 @@ import (
 //     delivered hello, and never in a step that only lets virtual time pass.
 
 type vfC13Cfg struct {
-	Name   string
-	Ver    string // 12 | 13 | dual
-	SVer   string
-	PSK    bool
-	CID    int
-	Group  bool // DTLS 1.3: the server refuses the client's first key share (HRR carries selected_group)
-	Base   string
-	Resume bool
+	Name      string
+	Ver       string // 12 | 13 | dual
+	SVer      string
+	PSK       bool
+	CID       int
+	Group     bool // DTLS 1.3: the server refuses the client's first key share (HRR carries selected_group)
+	Base      string
+	Resume    bool
 	NoBackoff bool // the server runs with WithDisableRetransmitBackoff(true)
 }
 
